@@ -63,6 +63,7 @@ Definition parse_connect (b : list N) : res body :=
           let wflag := bit flags 2 in
           let wqos := N.land 3 (N.shiftr flags 3) in
           if negb wflag && negb (wqos =? 0) then Err MALFORMED
+          else if 2 <? wqos then Err MALFORMED                          (* [MQTT-3.1.2-14] *)
           else
             let wretain := bit flags 5 in
             if negb wflag && wretain then Err MALFORMED
@@ -88,16 +89,15 @@ Definition parse_connect (b : list N) : res body :=
                      Ok (wpr', wt, wm, b3)
                    else Ok (wpr, [], [], b));
                 do '(user, b) <- (if uflag then read_utf8_string true b else Ok ([], b));
-                do '(pass, b) <- (if pflag then read_utf8_string true b else Ok ([], b));
+                do '(pass, b) <- (if pflag then read_utf8_string false b else Ok ([], b));
                 Ok (BConnect {| c_version := version; c_level := level; c_uflag := uflag; c_pname := pname;
                                 c_pflag := pflag; c_wretain := wretain; c_wqos := wqos; c_wflag := wflag;
                                 c_wtopic := wtopic; c_wmsg := wmsg; c_clean := clean; c_keepalive := keepalive;
                                 c_cid := cid; c_user := user; c_pass := pass; c_props := pr; c_wprops := wpr |})
   end.
 
-(* Connack.Unpack; NewConnackPacket sets Version: Version5 whatever the reader's version is *)
-Definition parse_connack (b : list N) : res body :=
-  let ver := 5 in
+(* Connack.Unpack *)
+Definition parse_connack (ver : N) (b : list N) : res body :=
   let '(sp, b) := match b with [] => (0, []) | x :: r => (x, r) end in    (* sp, err := bufr.ReadByte(): err ignored *)
   if 0 <? N.land 127 (N.shiftr sp 1) then Err MALFORMED
   else
@@ -253,7 +253,7 @@ Definition readfull_err (t : N) (avail : N) : err :=
 Definition parse_body (v : N) (fh : fixhdr) (b : list N) : res body :=
   let t := fh_type fh in
   if t =? CONNECT then parse_connect b
-  else if t =? CONNACK then parse_connack b
+  else if t =? CONNACK then parse_connack v b
   else if t =? PUBLISH then
     do '(dup, qos, retain) <- publish_flags (fh_flags fh); parse_publish v dup qos retain b
   else if (t =? PUBACK) || (t =? PUBREC) || (t =? PUBCOMP) then parse_ack t v (fh_rl fh) b
@@ -311,7 +311,7 @@ Definition pack_body (b : body) : res (N * N * list N) :=      (* (type, flags, 
       let wq := if c_wqos c =? 1 then 8 else if c_wqos c =? 2 then 16 else 0 in
       let cf := N.lor (b2n (c_uflag c) 128) (N.lor (b2n (c_pflag c) 64) (N.lor (b2n (c_wretain c) 32)
                  (N.lor (b2n (c_wflag c) 4) (N.lor wq (N.lor (b2n (c_clean c) 2) 0))))) in
-      let head := [0; 4] ++ c_pname c ++ [c_level c] ++ [cf mod 256] ++ put16 (c_keepalive c)
+      let head := put_bin (c_pname c) ++ [c_level c] ++ [cf mod 256] ++ put16 (c_keepalive c)
                   ++ (if c_version c =? 5 then props_pack (c_props c) else []) in
       do cid <- encode_utf8_string (c_cid c);
       do will <-
